@@ -2,7 +2,7 @@
    range.  Only the property theorems, each closed by [exact]; proofs live in
    Midi/MidiProofs.v, the model in Midi/MidiModel.v, the Spec in Midi/MidiSpec.v. *)
 From Coq Require Import List ZArith QArith.
-From RtoscV Require Import Midi.MidiModel Midi.MidiSpec Midi.MidiProofs Midi.MidiFloat Midi.MidiProto Midi.MidiNrt Midi.MidiSilent Midi.MidiInv Midi.MidiRefine Midi.MidiRound Midi.MidiValues Midi.MidiCapacity.
+From RtoscV Require Import Midi.MidiModel Midi.MidiSpec Midi.MidiProofs Midi.MidiFloat Midi.MidiProto Midi.MidiNrt Midi.MidiSilent Midi.MidiInv Midi.MidiRefine Midi.MidiRound Midi.MidiValues Midi.MidiCapacity Midi.MidiCross Midi.MidiRegress Midi.MidiHandshake.
 Import ListNotations.
 Local Open Scope Z_scope.
 
@@ -23,18 +23,43 @@ Theorem C20_compose_14bit : forall s id v t old c,
     0 <= compose14 (me_coarse t) v old < 16384.
 Proof. exact compose_14bit. Qed.
 
-(* D19: the statement for ALL histories is false of the faithful model *)
-Theorem C20_refuted :
+(* D19, repaired (fix: snapshots say which controller's midi-use-CC they
+   answer, only such a snapshot releases a pending controller, a midi-use-CC
+   that finds no address is answered with the unchanged mapping).  The witness
+   against the functions as they were (MidiRegress: rt_deliver_old released the
+   oldest pending controller on every midi-bind, nrt_useFreeID_old did not
+   answer when no address was queued): controller 5 takes two queued
+   addresses, p1's assignment is lost, the never-assigned controller 0 drives
+   p2. *)
+Theorem C20_d19_regress :
   exists ports evs tr fin,
-    run ports world0 evs = (tr, Some fin) /\
+    run_old19 ports world0 evs = (tr, Some fin) /\
     assigned_targets 5 tr = [(0, true); (1, true)] /\
     nth_error evs 20 = Some (ECC 5 67 1 false) /\ nth_error tr 20 = Some [] /\
     inv_find 1 (inv_map (wn fin)) = Some (2, 5, -1, {| bmin := (0, 0); bmax := (1, 0) |}) /\
     assigned_targets 0 tr = [] /\
     nth_error evs 21 = Some (ECC 0 9 1 false) /\
     option_map msgs_of (nth_error tr 21) = Some [ {| maddr := 2; mvalue := VFloat (bi_float {| bmin := (-3, -1); bmax := (11, -2) |} 9) |} ] /\
-    quiescent evs tr = false.
+    nocross evs tr = false.
 Proof. exact d19_refuted. Qed.
+
+(* the same history on the repaired functions: 5 is not offered a second time,
+   takes p0 only and drives it, p1 stays queued until 5 is free again, 0 is
+   silent; the records are the abstract specification's although a bind crosses
+   the offer (nocross = false) *)
+Theorem C20_d19_repaired :
+  exists tr fin,
+    run d19_ports world0 d19_history = (tr, Some fin) /\
+    nocross d19_history tr = false /\
+    tr = arun d19_ports astate0 d19_history /\
+    nth_error tr 12 = Some [] /\
+    assigned_targets 5 tr = [(0, true)] /\
+    nth_error tr 17 = Some [OM {| maddr := 0; mvalue := VInt 66 |}] /\
+    nth_error tr 20 = Some [OU 5] /\
+    learnQ (wn fin) = [(1, true)] /\ chN fin = [5] /\
+    assigned_targets 0 tr = [] /\
+    nth_error tr 21 = Some [].
+Proof. exact d19_repaired. Qed.
 
 (* Within the parameter's [min,max] and monotone - for the EXECUTABLE model
    (run_cb = the callbacks with rf := r24, rd := r53), no rounding hypothesis:
@@ -64,66 +89,124 @@ Theorem C20_bijection_monotone_7bit : forall p a c v1 v2 old,
           (mvalue (run_cb (mk_cb p a) (compose14 c v2 old))).
 Proof. exact cb_monotone_7bit. Qed.
 
-(* Learning in a quiescent history.  quiescent (MidiSpec) = no midi-bind that
-   is not the answer to a midi-use-CC is sent while a controller is pending,
-   and no controller is offered while such a bind is on its way; it is the
-   classifier bind-crosses-use-cc of the run-time check.  Then, for every
+(* Learning in a history in which no midi-bind crosses a midi-use-CC.
+   nocross (MidiSpec; the same predicate as `nocross` of tools/props/C20.py,
+   evaluated by the model driver on every generated history and compared):
+     N1  a midi-bind that is not the answer to a midi-use-CC (map / unMap /
+         clear) is sent only when every pending controller's answer is already
+         on its way (pending controllers = answering binds in flight);
+     N2  no controller is offered while such a bind is on its way.
+   The known finding bind-crosses-use-cc lies inside its complement.  (Stages
+   1-3 required "nothing is pending" in N1; C20_nocross_wider_nonvacuous is a
+   history admitted now and not before.)  Then, for every
    history over at most 32 distinct controllers and at every event (fresh_run,
    MidiProto): no snapshot on either side holds a controller twice, and each
    midi-use-CC <id> that reaches the non-realtime side finds a queued address
    (the oldest: useFreeID takes the head) and a controller that occurs in no
    entry of the current snapshot - so it is never given a second address.
-   Full statement (all histories): false, see C20_refuted. *)
-Theorem C20_quiescent_learn_partial : forall ports evs tr fin U,
+   Without nocross: "no controller twice" and "never a second address" hold
+   for all histories (C20_learn_once); "finds a queued address" does not (after
+   a crossing clear() a midi-use-CC may find none: it is then answered with the
+   unchanged mapping, MidiCross.clear_cross_survives). *)
+Theorem C20_nocross_learn_partial : forall ports evs tr fin U,
   (length U <= 32)%nat -> incl (ccids evs) U -> Forall (fun x => 0 <= x) (ccids evs) ->
-  run ports world0 evs = (tr, fin) -> quiescent evs tr = true ->
+  run ports world0 evs = (tr, fin) -> nocross evs tr = true ->
   fresh_run ports world0 evs.
-Proof. exact quiescent_fresh. Qed.
+Proof. exact nocross_fresh. Qed.
 
-Theorem C20_quiescent_learn_nonvacuous :
+Theorem C20_nocross_learn_nonvacuous :
   exists ports evs tr fin U,
     (length U <= 32)%nat /\ incl (ccids evs) U /\ Forall (fun x => 0 <= x) (ccids evs) /\
-    run ports world0 evs = (tr, Some fin) /\ quiescent evs tr = true /\
+    run ports world0 evs = (tr, Some fin) /\ nocross evs tr = true /\
     assigned_targets 5 tr = [(1, true)] /\ assigned_targets 6 tr = [(1, false)].
-Proof. exact quiescent_fresh_nonvacuous. Qed.
+Proof. exact nocross_fresh_nonvacuous. Qed.
+
+(* FULL (no side condition on the history - the two halves may exchange their
+   messages in every order, binds of map / unMap / clear crossing offers
+   included; at most 32 distinct controllers = the pending ring's capacity):
+   at every event (fresh_run0, MidiHandshake) no snapshot on either side holds
+   a controller twice, and each midi-use-CC <id> that reaches the non-realtime
+   side is for a controller that occurs in no entry of the current snapshot -
+   it is never given a second address.  This is D19's negation; it was false
+   before the fix (C20_d19_regress). *)
+Theorem C20_learn_once : forall ports evs U,
+  (length U <= 32)%nat -> incl (ccids evs) U -> Forall (fun x => 0 <= x) (ccids evs) ->
+  fresh_run0 ports world0 evs.
+Proof. exact learn_once. Qed.
+
+(* FULL: after every history that runs to its end the realtime side's pending
+   ring (pq_rep: its slots from pos_r on, psize of them) holds exactly the
+   controllers the records imply (pending_of, MidiSpec: offered controllers
+   enter at the back, every delivered answering bind removes the front;
+   `pending_before` of the plug-in, compared with the model's value and with
+   the real ring on every generated history), each once, and they are: the
+   controllers whose answering bind is on its way, then those whose
+   midi-use-CC is on its way - the controllers whose answer is outstanding. *)
+Theorem C20_pending_exact : forall ports evs tr w U,
+  (length U <= 32)%nat -> incl (ccids evs) U -> Forall (fun x => 0 <= x) (ccids evs) ->
+  run ports world0 evs = (tr, Some w) ->
+  pq_rep (pending (wr w)) (pending_of evs tr) /\ NoDup (pending_of evs tr) /\
+  exists A, pending_of evs tr = A ++ chN w /\ (length A <= length (chR w))%nat.
+Proof. exact pending_exact. Qed.
+
+(* a history admitted by nocross and not by the earlier side condition: the
+   bind of unMap p1 is sent while controller 5 is pending (its answer is ahead
+   of that bind in the queue); records = the abstract specification's, 5 drives
+   p0 and only p0, 6 drives nothing after the unMap *)
+Theorem C20_nocross_wider_nonvacuous :
+  exists tr fin w9,
+    run cross_ports world0 answered_pending_history = (tr, Some fin) /\
+    nocross answered_pending_history tr = true /\
+    tr = arun cross_ports astate0 answered_pending_history /\
+    snd (run cross_ports world0 (firstn 9 answered_pending_history)) = Some w9 /\
+    psize (pending (wr w9)) = 1 /\
+    pending_of (firstn 9 answered_pending_history) (firstn 9 tr) = [5] /\
+    nth_error tr 9 = Some [OB] /\
+    assigned_targets 5 tr = [(0, true)] /\
+    option_map msgs_of (nth_error tr 12) = Some [ {| maddr := 0; mvalue := VInt 65 |} ] /\
+    nth_error tr 13 = Some [].
+Proof. exact nocross_wider_example. Qed.
 
 (* controllers that are not assigned produce no parameter message: a
    controller with no entry in the realtime side's snapshot yields none
    (which controllers have entries: C20_learn_oldest_partial, C20_unmap_stops,
-   C20_bind_installs; no controller has two: C20_quiescent_learn_partial) *)
+   C20_bind_installs; no controller has two: C20_nocross_learn_partial) *)
 Theorem C20_unassigned_silent : forall r id v r' m used,
   ~ In id (mids (omap (rstorage r))) ->
   rt_handleCC r id v = Some (r', m, used) -> m = None.
 Proof. exact unassigned_silent. Qed.
 
-(* The invariant of the whole system (MidiInv): G = the handshake invariant of
-   C20_quiescent_learn_partial; J = inv_map, mapping, callback and value
+(* The invariant of the whole system (MidiInv), for ALL histories: the handshake
+   invariant of C20_learn_once / C20_pending_exact (MidiHandshake.HP) and J =
+   inv_map, mapping, callback and value
    vectors of the non-realtime side are consistent (NI: every inv_map entry's
    slot holds the callback of its address's port and its coarse/fine
    controllers are exactly the mapping entries pointing to that slot; queued
    (address, kind)s are unassigned), every snapshot in flight and the one the
    realtime side holds is well formed (SW: indices in range, one slot per
    address, one controller per slot and kind, values below 2^14), the pending
-   ring is in bounds.  Inv init, and every event of a quiescent history
-   executes without out-of-range access / null dereference (step <> None)
-   and re-establishes Inv. *)
-Theorem C20_inv_init : forall U ports, Inv U ports world0 0 [].
+   ring is in bounds.  Inv init, and every admissible event - map / unMap /
+   clear / CC / either delivery, in whatever order - executes without
+   out-of-range access / new T[-1] / null dereference (step <> None) and
+   re-establishes Inv. *)
+Theorem C20_inv_init : forall U ports, Inv U ports world0.
 Proof. exact Inv_init. Qed.
 
-Theorem C20_inv_step : forall U ports w pend tg e,
-  (length U <= 32)%nat -> Inv U ports w pend tg -> ev_ok U e -> evok ports e ->
-  exists w' o, step ports w e = Some (w', o) /\
-    forall p' tg', qstep pend tg e o = Some (p', tg') -> Inv U ports w' p' tg'.
+Theorem C20_inv_step : forall U ports w e,
+  (length U <= 32)%nat -> Inv U ports w -> ev_ok U e -> evok ports e ->
+  exists w' o, step ports w e = Some (w', o) /\ Inv U ports w'.
 Proof. exact Inv_step. Qed.
 
-(* lifted over histories: every quiescent history (<= 32 controllers, 7-bit
-   values, mapped addresses in the port table) runs to its end - no crash -
-   and ends in a consistent state *)
-Theorem C20_quiescent_crash_free_partial : forall ports evs tr fin U,
+(* FULL, lifted over histories: every history (<= 32 controllers, 7-bit
+   values, mapped addresses in the port table), with the two halves' messages
+   delivered in any order, runs to its end - no crash - and ends in a
+   consistent state.  (Before the D19 fix: a write past the end in killMap,
+   corpus/C20/witnesses.txt.) *)
+Theorem C20_crash_free : forall ports evs tr fin U,
   (length U <= 32)%nat -> incl (ccids evs) U -> Forall (evok ports) evs ->
-  run ports world0 evs = (tr, fin) -> quiescent evs tr = true ->
+  run ports world0 evs = (tr, fin) ->
   length tr = length evs /\ exists w, fin = Some w /\ J ports w.
-Proof. exact quiescent_crash_free. Qed.
+Proof. exact crash_free. Qed.
 
 (* assigned to the oldest queued address, other bindings unaffected - first or
    second controller of the address alike: in a consistent state useFreeID(id)
@@ -136,7 +219,7 @@ Proof. exact quiescent_crash_free. Qed.
 Theorem C20_learn_oldest : forall ports n id a c q, NI ports n -> learnQ n = (a, c) :: q ->
   0 <= id -> ~ In id (mids (omap (nstorage n))) ->
   exists n' s' p loc,
-    nrt_useFreeID ports n id = Some (n', [RBind s']) /\ NI ports n' /\ nstorage n' = Some s' /\
+    nrt_useFreeID ports n id = Some (n', [RBind s' id]) /\ NI ports n' /\ nstorage n' = Some s' /\
     learnQ n' = q /\ SW ports s' /\ nthZ ports a = Some p /\
     find_map id (mapping s') = Some (id, c, loc) /\
     nthZ (callbacks s') loc = Some (mk_cb p a) /\
@@ -153,7 +236,7 @@ Theorem C20_unmap_stops : forall n a (c : bool) im s,
   let kill := if c then im_co im else im_fi im in
   kill <> -1 ->
   forall n' out, nrt_unmap n a c = Some (n', out) ->
-  exists s', out = [RBind s'] /\ nstorage n' = Some s' /\
+  exists s', out = [RBind s' (-1)] /\ nstorage n' = Some s' /\
     find_map kill (mapping s') = None /\
     (forall v, store_handleCC s' kill v = Some (s', None)) /\
     (forall id', id' <> kill -> find_map id' (mapping s') = find_map id' (mapping s)) /\
@@ -161,43 +244,44 @@ Theorem C20_unmap_stops : forall n a (c : bool) im s,
 Proof. exact unmap_stops. Qed.
 
 (* after a midi-bind the realtime side works from the snapshot it carried *)
-Theorem C20_bind_installs : forall r ns r', rt_deliver r (RBind ns) = Some r' ->
+Theorem C20_bind_installs : forall r ns ans r', rt_deliver r (RBind ns ans) = Some r' ->
   exists s', rstorage r' = Some s' /\ mapping s' = mapping ns /\ callbacks s' = callbacks ns.
 Proof. exact bind_installs. Qed.
 
-(* History level: in a quiescent history (same side condition and bound as
-   C20_quiescent_learn_partial) a parameter message is produced only by a
-   controller value whose controller was assigned before - a midi-use-CC for
-   it reached the non-realtime side while an address was queued
+(* FULL, history level: in every history a parameter message is produced only
+   by a controller value whose controller was assigned before - a midi-use-CC
+   for it reached the non-realtime side while an address was queued
    (assigned_after collects exactly those) - and by no other event. *)
-Theorem C20_unassigned_silent_history_partial : forall ports evs tr fin U,
+Theorem C20_unassigned_silent_history : forall ports evs U,
   (length U <= 32)%nat -> incl (ccids evs) U -> Forall (fun x => 0 <= x) (ccids evs) ->
-  run ports world0 evs = (tr, fin) -> quiescent evs tr = true ->
   silent_run ports world0 [] evs.
-Proof. exact quiescent_silent. Qed.
+Proof. exact silent_all. Qed.
 
-(* Refinement against the abstract specification MidiSpec.astep (a finite map
-   controller -> (address, coarse|fine), a FIFO of addresses waiting to learn,
-   the realtime side's delayed copy, the last 7-bit value of every controller
-   in it, the 14-bit value of an address = coarse*128 + fine pushed through
-   the port's callback; no slots, index vectors, inv_map, cloneValues or
-   ring): on every quiescent history the model emits, event by event, exactly
-   the records the specification emits - same queue traffic, same
-   assignments (oldest queued address), and every parameter message with
-   exactly the specification's address AND value; none for unassigned
-   controllers; unMap / clear / relearn change only what the table says; the
-   two 7-bit halves survive every rebuilt snapshot (cloneValues).
-   _partial: quiescent (the full statement is refuted, C20_refuted) and
-   <= 32 controllers (tight: C20_capacity_refuted). *)
-Theorem C20_refines_spec_partial : forall ports evs tr fin U,
+(* FULL: refinement against the abstract specification MidiSpec.astep (a finite
+   map controller -> (address, coarse|fine), a FIFO of addresses waiting to
+   learn, the realtime side's delayed copy, the last 7-bit value of every
+   controller in it, the 14-bit value of an address = coarse*128 + fine pushed
+   through the port's callback, the controllers on offer with the rule "an
+   answer releases the controller it answers"; no slots, index vectors,
+   inv_map, cloneValues or ring): on EVERY history - the realtime and the
+   non-realtime half exchanging their messages in every admissible order - the
+   model emits, event by event, exactly the records the specification emits:
+   same queue traffic, same assignments (oldest queued address), and every
+   parameter message with exactly the specification's address AND value; none
+   for unassigned controllers; unMap / clear / relearn change only what the
+   table says; the two 7-bit halves survive every rebuilt snapshot
+   (cloneValues).  Before the D19 fix this was false (C20_d19_regress) and
+   proved for nocross histories only.  Bound: <= 32 controllers (tight:
+   C20_capacity_refuted). *)
+Theorem C20_refines_spec : forall ports evs tr fin U,
   (length U <= 32)%nat -> incl (ccids evs) U -> Forall (evok ports) evs ->
-  run ports world0 evs = (tr, fin) -> quiescent evs tr = true ->
+  run ports world0 evs = (tr, fin) ->
   tr = arun ports astate0 evs.
-Proof. exact refine_quiescent_values. Qed.
+Proof. exact refine_values. Qed.
 
-(* The bound "<= 32 controllers" of the three _partial theorems above is a
+(* The bound "<= 32 controllers" of the history-level theorems above is a
    real side condition: 40 addresses queued, 34 controllers offered at once,
-   the 33rd (id 32) again - an admissible, quiescent history on which
+   the 33rd (id 32) again - an admissible, nocross history on which
    controller 32 is offered twice and takes two queued addresses (the
    PendingQueue holds 32 ids).  Reproduced on the real code (notes/C20.md).
    It needs more than 32 queued addresses, outside the property's quantifier
@@ -206,7 +290,7 @@ Theorem C20_capacity_refuted :
   exists tr fin,
     run cap_ports world0 cap_history = (tr, Some fin) /\
     Forall (evok cap_ports) cap_history /\
-    quiescent cap_history tr = true /\
+    nocross cap_history tr = true /\
     length (nodup Z.eq_dec (ccids cap_history)) = 34%nat /\
     offers_of 32 tr = 2%nat /\
     assigned_targets 32 tr = [(32, true); (34, true)] /\
